@@ -1,8 +1,8 @@
 SPECIFICATION Spec
 CONSTANTS
-  Config = "t3x"
+  Config = "inc"
   T = 3
-  K = 1
+  K = 3
   Thorough = TRUE
   RenderDepth = 6
   NestedRead = FALSE
@@ -30,4 +30,3 @@ PROPERTIES
   WritesOnlyUnderLock
 POSTCONDITION Emit
 CHECK_DEADLOCK TRUE
-VIEW View
